@@ -353,7 +353,130 @@ theorem Fe.ct_eq_src_eq_model (f g : Fe) : Fe.ct_eq_src f g = Fe64.ct_eq f g := 
 theorem Fe.eq_src_eq_model (f g : Fe) : Fe.eq_src f g = Fe64.eq f g := by rfl
 theorem Fe.ct_ne_src_eq_model (f g : Fe) : Fe.ct_ne_src f g = (Fe64.ct_eq f g).map CT.Choice.negate := by
   unfold Fe.ct_ne_src; cases Fe64.ct_eq f g <;> rfl
+/-- the limb-level statements of `negate_mut` are those of `Neg` (the model's `negate_mut g := neg g`) -/
+theorem Fe.negate_mut_src_eq_model (f : Fe) : Fe.negate_mut_src f = negate_mut f := by rfl
+
+theorem Fe.from_bytes_src_eq_model (b : Bytes) : Fe.from_bytes_src b = fromBytes b := by
+  unfold Fe.from_bytes_src fromBytes
+  by_cases h : b.length = 32
+  · rw [if_pos h, dif_pos h, Fe.from_bytes_load b h 0 (by omega), Fe.from_bytes_load b h 6 (by omega), Fe.from_bytes_load b h 12 (by omega), Fe.from_bytes_load b h 19 (by omega),
+      Fe.from_bytes_load b h 24 (by omega)]
+    rfl
+  · rw [if_neg h, dif_neg h]
+/-- `to_packed`, then the four `write8!` expansions (32 single-byte stores) = the four words little endian -/
+theorem Fe.to_bytes_src_eq_model (f : Fe) : Fe.to_bytes_src f = Fe64.to_bytes f := by
+  unfold Fe.to_bytes_src Fe64.to_bytes
+  cases h : to_packed f with
+  | none => rfl
+  | some w =>
+    have hl := to_packed_length f w h
+    match w, hl with
+    | [a, b, c, d], _ =>
+      obtain ⟨a0, a1, a2, a3, a4, a5, a6, a7, ha⟩ := natToLE_8 a
+      obtain ⟨b0, b1, b2, b3, b4, b5, b6, b7, hb⟩ := natToLE_8 b
+      obtain ⟨c0, c1, c2, c3, c4, c5, c6, c7, hc⟩ := natToLE_8 c
+      obtain ⟨d0, d1, d2, d3, d4, d5, d6, d7, hd⟩ := natToLE_8 d
+      rw [some_bind', some_bind']
+      dsimp only
+      rw [ha, hb, hc, hd]
+      have hr : List.flatMap (natToLE 8) [a, b, c, d] = [a0, a1, a2, a3, a4, a5, a6, a7, b0, b1, b2, b3, b4, b5, b6, b7,
+          c0, c1, c2, c3, c4, c5, c6, c7, d0, d1, d2, d3, d4, d5, d6, d7] := by
+        simp only [List.flatMap_cons, List.flatMap_nil, ha, hb, hc, hd, List.append_nil, List.cons_append, List.nil_append]
+      rw [hr]
+      simp only [List.getElem?_cons_zero, List.getElem?_cons_succ, some_bind']
+      simp only [zeros, List.replicate, List.set_cons_zero, List.set_cons_succ]
+
 /-! ## (b) Scalar -/
+
+section scalarbytes
+open Cx.Impl.Scalar64 (shl64 shr64 load32 load64 contract)
+
+theorem Scalar.from_bytes_src_eq_model (b : Bytes) : Scalar.from_bytes_src b = Scalar64.fromBytes b := by
+  unfold Scalar.from_bytes_src Scalar64.fromBytes Scalar64.toArr
+  by_cases h : b.length = 32
+  · rw [if_pos h, dif_pos h, Scalar.from_bytes_load b h 0 (by omega), Scalar.from_bytes_load b h 8 (by omega), Scalar.from_bytes_load b h 16 (by omega), Scalar.from_bytes_load b h 24 (by omega)]
+    generalize (⟨b.toArray, by simp [h]⟩ : Vector UInt8 32) = v
+    rw [some_bind', some_bind', some_bind', some_bind', Option.map_some]
+    unfold Scalar64.from_bytes
+    dsimp only
+    rfl
+  · rw [if_neg h, dif_neg h]; rfl
+
+theorem Scalar.reduce_from_wide_bytes_src_eq_model (b : Bytes) : Scalar.reduce_from_wide_bytes_src b = Scalar64.reduceFromWideBytes b := by
+  unfold Scalar.reduce_from_wide_bytes_src Scalar64.reduceFromWideBytes Scalar64.toArr
+  by_cases h : b.length = 64
+  · rw [if_pos h, dif_pos h, Scalar.reduce_from_wide_bytes_load b h 0 (by omega), Scalar.reduce_from_wide_bytes_load b h 8 (by omega), Scalar.reduce_from_wide_bytes_load b h 16 (by omega), Scalar.reduce_from_wide_bytes_load b h 24 (by omega),
+      Scalar.reduce_from_wide_bytes_load b h 32 (by omega), Scalar.reduce_from_wide_bytes_load b h 40 (by omega), Scalar.reduce_from_wide_bytes_load b h 48 (by omega), Scalar.reduce_from_wide_bytes_load b h 56 (by omega)]
+    generalize (⟨b.toArray, by simp [h]⟩ : Vector UInt8 64) = v
+    rw [some_bind', some_bind', some_bind', some_bind', some_bind', some_bind', some_bind', some_bind', Option.bind_some]
+    unfold Scalar64.reduce_from_wide_bytes
+    dsimp only
+    rfl
+  · rw [if_neg h, dif_neg h]; rfl
+theorem Scalar.to_bytes_src_eq_model (s : Scalar64.Scalar) : Scalar.to_bytes_src s = some (Scalar64.to_bytes s) := by
+  unfold Scalar.to_bytes_src Scalar64.to_bytes Scalar64.to_le_bytes
+  dsimp only
+  show _ = some (natToLE 8 (((s.l1 <<< 56) % 2 ^ 64) ||| s.l0) ++ natToLE 8 (((s.l2 <<< 48) % 2 ^ 64) ||| (s.l1 >>> 8))
+    ++ natToLE 8 (((s.l3 <<< 40) % 2 ^ 64) ||| (s.l2 >>> 16)) ++ natToLE 8 (((s.l4 <<< 32) % 2 ^ 64) ||| (s.l3 >>> 24)))
+  generalize (((s.l1 <<< 56) % 2 ^ 64) ||| s.l0) = a
+  generalize (((s.l2 <<< 48) % 2 ^ 64) ||| (s.l1 >>> 8)) = b
+  generalize (((s.l3 <<< 40) % 2 ^ 64) ||| (s.l2 >>> 16)) = c
+  generalize (((s.l4 <<< 32) % 2 ^ 64) ||| (s.l3 >>> 24)) = d
+  obtain ⟨a0, a1, a2, a3, a4, a5, a6, a7, ha⟩ := natToLE_8 a
+  obtain ⟨b0, b1, b2, b3, b4, b5, b6, b7, hb⟩ := natToLE_8 b
+  obtain ⟨c0, c1, c2, c3, c4, c5, c6, c7, hc⟩ := natToLE_8 c
+  obtain ⟨d0, d1, d2, d3, d4, d5, d6, d7, hd⟩ := natToLE_8 d
+  rw [ha, hb, hc, hd]
+  simp only [List.getElem?_cons_zero, List.getElem?_cons_succ, some_bind']
+  simp only [zeros, List.replicate, List.set_cons_zero, List.set_cons_succ]
+  rfl
+/-- `bits` / `nibbles` (loops filling `[i8; 256]` / `[i8; 64]`): the model's vectors as lists -/
+theorem Scalar.bits_src_eq_model (s : Scalar64.Scalar) : Scalar.bits_src s = some (Scalar64.bits s).toList := by
+  unfold Scalar.bits_src
+  dsimp only
+  generalize hcl : ((((List.replicate 4 0).set 0 (s.l1 <<< 56 % 2 ^ 64 ||| s.l0)).set 1 (s.l2 <<< 48 % 2 ^ 64 ||| s.l1 >>> 8)).set 2
+    (s.l3 <<< 40 % 2 ^ 64 ||| s.l2 >>> 16)).set 3 (s.l4 <<< 32 % 2 ^ 64 ||| s.l3 >>> 24) = cl
+  have hcl4 : cl.length = 4 := by rw [← hcl]; simp
+  have hr0 : (List.replicate 256 (0 : Int)).length = 256 := List.length_replicate
+  generalize List.replicate 256 (0 : Int) = r0 at hr0 ⊢
+  obtain ⟨r', h1, h2, _, h4⟩ := Scalar.bits_loop1 cl hcl4 256 0 r0 rfl hr0
+  refine h1.trans (congrArg some ?_)
+  apply List.ext_getElem?
+  intro j
+  by_cases hj : j < 256
+  · rw [h4 j (by omega) hj, Vector.getElem?_toList, Vector.getElem?_eq_getElem hj]
+    unfold Scalar64.bits
+    rw [Vector.getElem_ofFn]
+    have hs : j >>> 6 < 4 := by rw [Nat.shiftRight_eq_div_pow]; omega
+    unfold Scalar.bitF
+    rw [List.getElem?_eq_getElem (by omega : j >>> 6 < cl.length)]
+    subst hcl
+    rfl
+  · rw [List.getElem?_eq_none (by omega), List.getElem?_eq_none (by simp; omega)]
+theorem Scalar.nibbles_src_eq_model (s : Scalar64.Scalar) : Scalar.nibbles_src s = some (Scalar64.nibbles s).toList := by
+  unfold Scalar.nibbles_src
+  dsimp only
+  generalize hcl : ((((List.replicate 4 0).set 0 (s.l1 <<< 56 % 2 ^ 64 ||| s.l0)).set 1 (s.l2 <<< 48 % 2 ^ 64 ||| s.l1 >>> 8)).set 2
+    (s.l3 <<< 40 % 2 ^ 64 ||| s.l2 >>> 16)).set 3 (s.l4 <<< 32 % 2 ^ 64 ||| s.l3 >>> 24) = cl
+  have hcl4 : cl.length = 4 := by rw [← hcl]; simp
+  have hr0 : (List.replicate 64 (0 : Int)).length = 64 := List.length_replicate
+  generalize List.replicate 64 (0 : Int) = r0 at hr0 ⊢
+  obtain ⟨r', h1, h2, _, h4⟩ := Scalar.nibbles_loop1 cl hcl4 4 0 r0 rfl hr0
+  refine h1.trans (congrArg some ?_)
+  apply List.ext_getElem?
+  intro j
+  by_cases hj : j < 64
+  · rw [h4 j (by omega) hj, Vector.getElem?_toList, Vector.getElem?_eq_getElem hj]
+    unfold Scalar64.nibbles
+    rw [Vector.getElem_ofFn]
+    unfold Scalar.nibF
+    rw [List.getElem?_eq_getElem (by omega : j / 16 < cl.length)]
+    subst hcl
+    rfl
+  · rw [List.getElem?_eq_none (by omega), List.getElem?_eq_none (by simp; omega)]
+
+end scalarbytes
+
 
 theorem Scalar.muladd_src_eq_model (a b c : Scalar64.Scalar) : Scalar.muladd_src a b c = Scalar64.muladd a b c := by
   unfold Scalar.muladd_src Scalar64.muladd
